@@ -614,12 +614,54 @@ theorem Spec.weaken {m : M α} (h : Spec true m) : Spec t m := by
   | raised k s => rw [hr] at this; exact this
   | oof => rw [hr] at this; cases this
 
-theorem spec_rvalueTop (d : Dest) (cg : CG) : Spec t (rvalueTop d cg) :=
-  ⟨fun st h => (((spec_rvFamily (rvFuel st)).1 d cg).run st h).strengthen
-    ((fin_rvFamily (rvFuel st)).1 d cg st h (by unfold rvFuel; omega))⟩
+/-! ### the scratch generator swapped in (`withScratch`) -/
 
-theorem strict_rvalueTop (d : Dest) (cg : CG) : Strict (rvalueTop d cg) :=
-  fun st a st' h he => (strict_rvFamily (rvFuel st)).1 d cg st a st' h he
+theorem inv_swapCode {st : St} (h : Inv st) : Inv st.swapCode := inv_of_eq h rfl rfl rfl
+
+theorem swapCode_rest (st : St) : st.swapCode.rest = st.rest := rfl
+
+theorem good_withScratch {m : M Unit} {st : St} (h : (m st.swapCode).Good t st.swapCode) :
+    (withScratch m st).Good t st := by
+  unfold withScratch
+  cases hr : m st.swapCode with
+  | ok a s =>
+    rw [hr] at h
+    exact ⟨inv_swapCode h.inv, h.suffix, h.errors, h.shape⟩
+  | fail s =>
+    rw [hr] at h
+    exact ⟨h.suffix, h.errors⟩
+  | raised k s => rw [hr] at h; exact h
+  | oof => rw [hr] at h; exact h
+
+theorem withScratch_ok {m : M Unit} {st st' : St} {a : Unit} (h : withScratch m st = .ok a st') :
+    ∃ s, m st.swapCode = .ok a s ∧ st' = s.swapCode := by
+  unfold withScratch at h
+  cases hr : m st.swapCode with
+  | ok b s => rw [hr] at h; cases h; exact ⟨s, rfl, rfl⟩
+  | fail s => rw [hr] at h; cases h
+  | raised k s => rw [hr] at h; cases h
+  | oof => rw [hr] at h; cases h
+
+theorem spec_rvalueTop (d : Dest) (cg : CG) : Spec t (rvalueTop d cg) := by
+  refine ⟨fun st h => ?_⟩
+  unfold rvalueTop
+  cases cg with
+  | main =>
+    exact (((spec_rvFamily (rvFuel st)).1 d .main).run st h).strengthen
+      ((fin_rvFamily (rvFuel st)).1 d .main st h (by unfold rvFuel; omega))
+  | inner =>
+    have hi := inv_swapCode h
+    exact good_withScratch ((((spec_rvFamily (rvFuel st)).1 d .main).run _ hi).strengthen
+      ((fin_rvFamily (rvFuel st)).1 d .main _ hi (by unfold rvFuel; rw [swapCode_rest]; omega)))
+
+theorem strict_rvalueTop (d : Dest) (cg : CG) : Strict (rvalueTop d cg) := by
+  intro st a st' h he
+  unfold rvalueTop at he
+  cases cg with
+  | main => exact (strict_rvFamily (rvFuel st)).1 d .main st a st' h he
+  | inner =>
+    obtain ⟨s, hs, rfl⟩ := withScratch_ok he
+    exact (strict_rvFamily (rvFuel st)).1 d .main st.swapCode a s (inv_swapCode h) hs
 
 theorem spec_callRoutine : Spec t callRoutine := by
   refine ⟨fun st h => ?_⟩
